@@ -7,6 +7,7 @@ import (
 	"os"
 	"path/filepath"
 	"testing"
+	"time"
 
 	"github.com/ulikunitz/xz"
 	"github.com/ulikunitz/xz/lzma"
@@ -88,7 +89,15 @@ func target(format string) func(t *testing.T, data []byte) {
 		if len(data) > 0 && data[len(data)-1]&1 == 1 {
 			readLen = 1 + int(data[len(data)-1])
 		}
-		res := hostile.Read(format, data, readLen, 16<<20)
+		// a Read call that never returns must fail the input, not hang the run
+		done := make(chan hostile.Result, 1)
+		go func() { done <- hostile.Read(format, data, readLen, 16<<20) }()
+		var res hostile.Result
+		select {
+		case res = <-done:
+		case <-time.After(40 * time.Second):
+			t.Fatalf("%s reader did not return within 40 s on a %d-byte input (stall)", format, len(data))
+		}
 		if res.Fail != "" {
 			t.Fatalf("%s", res.Fail)
 		}
